@@ -142,8 +142,8 @@ func runC15(w *World) {
 	w.weights[akFault] = 0
 	w.cut = cutMode(w.knob("cut", 2))
 	w.addWebhook("hook0.sim:80", nil)
-	mode := int(w.seed % 7)
-	modeName := []string{"follower-never-caught-up", "follower-caught-up", "read-only", "password-unauthenticated", "password-authenticated", "protected-non-loopback", "protected-loopback"}[mode]
+	mode := int(w.seed % 8)
+	modeName := []string{"follower-never-caught-up", "follower-caught-up", "read-only", "password-unauthenticated", "password-authenticated", "protected-non-loopback", "protected-loopback", "follower-mid-sync"}[mode]
 	const pass = "s3cret"
 	sha := Sha1Sum(c15Script)
 	shaRO := Sha1Sum(c15ScriptRO)
@@ -164,6 +164,7 @@ func runC15(w *World) {
 		os.WriteFile(filepath.Join(n.dir, "config"), []byte(mustJSON(n.config)), 0600)
 	}
 	var target *Node
+	midSync := false
 	pwAtRuntime := false
 	roAtRuntime := false
 	clientAddr := simAddr("127.0.0.1:50001")
@@ -175,6 +176,53 @@ func runC15(w *World) {
 		target.opts.UseHTTP = true
 		writeCfg(target)
 		target.start()
+	case 7:
+		// a follower in its FIRST synchronization, stopped half-way: the leader's log is much
+		// longer than what the replication link has carried when it stalls. The follower has
+		// applied some commands, not all: it has never caught up.
+		mode = 0
+		midSync = true
+		L := mkNode("n1", "10.0.0.1", true)
+		bulk := append([]byte(nil), raw...)
+		for i := 0; i < 300; i++ { // (the leader hands its log to the socket 32 KB at a time)
+			bulk = append(bulk, encodeCmd([]string{"SET", "bulk", fmt.Sprintf("b%03d", i), "STRING", strings.Repeat("x", 600)})...)
+		}
+		os.WriteFile(filepath.Join(L.dir, "appendonly.aof"), bulk, 0600)
+		writeCfg(L)
+		L.start()
+		w.sndWindow = 1 // the leader's stream advances only as far as it is delivered
+		target = mkNode("n2", "10.0.0.2", false)
+		target.config["follow_host"] = "10.0.0.1"
+		target.config["follow_port"] = 9851
+		target.opts.UseHTTP = true
+		writeCfg(target)
+		stalled := false
+		w.stepHooks = append(w.stepHooks, func() {
+			// the link stalls once it has carried a few KB towards the follower; connections
+			// opened later (reconnects) do not get through either
+			w.mu.Lock()
+			for _, c := range w.conns {
+				if strings.HasPrefix(c.label, "repl:") && (stalled || c.a.delivered >= 6000) {
+					stalled = true
+					c.a.stalledUntil = w.now() + 24*time.Hour
+					c.b.stalledUntil = w.now() + 24*time.Hour
+				}
+			}
+			w.mu.Unlock()
+		})
+		target.start()
+		if !w.Drain(20*time.Second, func() bool { return stalled && target.inst.srv != nil && target.inst.srv.aofsz >= 1200 }) {
+			if !w.failed() {
+				w.harnessErr("follower did not start synchronizing during set-up")
+			}
+			return
+		}
+		w.Settle()
+		if got, want := target.inst.srv.aofsz, len(bulk); got >= want {
+			w.harnessErr("mid-sync set-up: the follower already holds the whole log (%d of %d bytes)", got, want)
+			return
+		}
+		w.stat("probe.follower_stopped_mid_sync", 1)
 	case 1:
 		L := mkNode("n1", "10.0.0.1", true)
 		writeCfg(L)
@@ -193,7 +241,7 @@ func runC15(w *World) {
 		}
 	case 2:
 		target = mkNode("n1", "10.0.0.1", true)
-		roAtRuntime = (w.seed/7)%2 == 1
+		roAtRuntime = (w.seed/8)%2 == 1
 		if !roAtRuntime {
 			target.config["read_only"] = true
 		}
@@ -204,7 +252,7 @@ func runC15(w *World) {
 		target = mkNode("n1", "10.0.0.1", true)
 		// half of the unauthenticated runs set the password at run time, with the probing
 		// connection already open and already used
-		pwAtRuntime = mode == 3 && (w.seed/7)%2 == 1
+		pwAtRuntime = mode == 3 && (w.seed/8)%2 == 1
 		if !pwAtRuntime {
 			target.config["requirepass"] = pass
 		}
@@ -483,7 +531,7 @@ func runC15(w *World) {
 	}
 	w.stat("c15.commands_sent", checked)
 	w.nontriv = checked >= 50
-	w.sigExtra = fmt.Sprintf("mode%d/seed%d", mode, w.seed)
+	w.sigExtra = fmt.Sprintf("mode%d/%v/seed%d", mode, midSync, w.seed)
 	w.sample = map[string]interface{}{"seed": w.seed, "mode": modeName, "commands_sent": checked, "wrappers": func() []string {
 		var s []string
 		for _, x := range wraps {
